@@ -53,12 +53,15 @@ CHECKS.update({
             "and cancellation points, no-lost-wakeup at quiescence; tied by concurrent wake scenarios with quiescent probes + turn-trace "
             "validation of the notify flags", "5-C06"),
     "C07": ("deadlock slice P3: kernel-checked deadlock witness of the pre-fix protocol, inductive invariant, progress and strictly "
-            "decreasing measure for the repaired protocol for every capacity >= 1; tied by burst scenarios with shrunken mailboxes "
-            "(no call may hang or take virtual time) + turn-trace validation", "5-C07"),
+            "decreasing measure for the repaired protocol for every capacity >= 1; system model: no request but Pull takes virtual time "
+            "and every Pull is answered by its 300 s wait limit (C07_zero_time, C07_pull_limit); tied by burst scenarios with shrunken "
+            "mailboxes (no call may hang or take virtual time), several long-blocked pulls with late traffic (pulllimit) + turn-trace validation", "5-C07"),
     "C12": ("release after deletion in slice P2: nobody parks after DeleteEnd, progress and decreasing measure for both outcomes of "
             "the randomised select, pre-fix silent-end witness; tied by delete scenarios against open streams / blocked pulls / racers", "5-C12"),
-    "C14": ("dispatch-turn theorems for every endpoint outcome (fault sequence) on top of C02/C04/C05, registry frame theorem, accepted "
-            "status table; tied by the real push loop against a scripted HTTP endpoint + registry correspondence", "5-C14"),
+    "C14": ("C14_until_accepted by induction over ALL push histories (publishes, rounds, arbitrary endpoint outcomes in any order, timer "
+            "ticks): a posted message is still held or an accepted answer arrived for an outstanding delivery of it; dispatch-turn theorems "
+            "for every endpoint outcome on top of C02/C04/C05, registry invariant over all histories, accepted status table; tied by the real "
+            "push loop against a scripted HTTP endpoint (several push subscriptions per topic) + registry correspondence", "5-C14"),
     "C16": ("cancellation slice P4: pre-fix orphan witness, inductive invariant and all-or-nothing at quiescence with a cancel label at "
             "every await, abandoned-pull theorem; tied by poll-k-then-drop scenarios under saturated mailboxes", "5-C16"),
     "C19": ("flow-control slice P5 at atomic-operation granularity: inductive invariant (epoch / touched ghost), safety, no-missed-capacity "
